@@ -68,6 +68,30 @@ theorem abs_congr {h h' : Store} : ∀ (n : Nat) (l : Nat),
 
 /-! ## extension of the store -/
 
+/-- Every object of `h` is still there, unchanged, in `h'`. -/
+def Keeps (h h' : Store) : Prop := ∀ (l : Nat) (o : Obj), h[l]? = some o → h'[l]? = some o
+
+theorem Keeps.refl (h : Store) : Keeps h h := fun _ _ e => e
+
+theorem Keeps.trans {a b c : Store} (h1 : Keeps a b) (h2 : Keeps b c) : Keeps a c :=
+  fun l o e => h2 l o (h1 l o e)
+
+theorem Keeps.get {h h' : Store} (s : Keeps h h') {l : Nat} {o : Obj} (e : h[l]? = some o) :
+    h'[l]? = some o := s l o e
+
+theorem Keeps.get_lt {h h' : Store} (s : Keeps h h') {l : Nat} (hl : l < h.length) : h'[l]? = h[l]? := by
+  obtain ⟨o, e⟩ := get_of_lt hl
+  rw [e]; exact s l o e
+
+theorem Keeps.len {h h' : Store} (s : Keeps h h') : h.length ≤ h'.length := by
+  cases hn : h.length with
+  | zero => exact Nat.zero_le _
+  | succ k =>
+    have hk : k < h.length := by omega
+    obtain ⟨o, e⟩ := get_of_lt hk
+    have := lt_of_get (s k o e)
+    omega
+
 /-- `h'` is `h` followed by newly allocated objects. -/
 def Sub (h h' : Store) : Prop := ∃ t, h' = h ++ t
 
@@ -78,23 +102,23 @@ theorem Sub.trans {a b c : Store} (h1 : Sub a b) (h2 : Sub b c) : Sub a c := by
   obtain ⟨t2, rfl⟩ := h2
   exact ⟨t1 ++ t2, by simp⟩
 
-theorem Sub.len {h h' : Store} (s : Sub h h') : h.length ≤ h'.length := by
-  obtain ⟨t, rfl⟩ := s
-  simp
-
-theorem Sub.get {h h' : Store} (s : Sub h h') {l : Nat} {o : Obj} (e : h[l]? = some o) :
-    h'[l]? = some o := by
+theorem Sub.keeps {h h' : Store} (s : Sub h h') : Keeps h h' := by
+  intro l o e
   obtain ⟨t, rfl⟩ := s
   rw [List.getElem?_append_left (lt_of_get e)]
   exact e
 
-theorem Sub.get_lt {h h' : Store} (s : Sub h h') {l : Nat} (hl : l < h.length) : h'[l]? = h[l]? := by
-  obtain ⟨t, rfl⟩ := s
-  exact List.getElem?_append_left hl
+theorem Sub.len {h h' : Store} (s : Sub h h') : h.length ≤ h'.length := s.keeps.len
+
+theorem Sub.get {h h' : Store} (s : Sub h h') {l : Nat} {o : Obj} (e : h[l]? = some o) :
+    h'[l]? = some o := s.keeps l o e
+
+theorem Sub.get_lt {h h' : Store} (s : Sub h h') {l : Nat} (hl : l < h.length) : h'[l]? = h[l]? :=
+  s.keeps.get_lt hl
 
 theorem Sub.alloc (h : Store) (o : Obj) : Sub h (h ++ [o]) := ⟨[o], rfl⟩
 
-theorem slotValid_sub {h h' : Store} (s : Sub h h') {x : Slot} (v : slotValid h x = true) :
+theorem slotValid_keeps {h h' : Store} (s : Keeps h h') {x : Slot} (v : slotValid h x = true) :
     slotValid h' x = true := by
   cases x with
   | val _ => rfl
@@ -104,7 +128,10 @@ theorem slotValid_sub {h h' : Store} (s : Sub h h') {x : Slot} (v : slotValid h 
     simp only [slotValid, decide_eq_true_eq]
     omega
 
-theorem reach_sub_iff {h h' : Store} (hc : Closed h) (s : Sub h h') {l x : Nat} (hl : l < h.length) :
+theorem slotValid_sub {h h' : Store} (s : Sub h h') {x : Slot} (v : slotValid h x = true) :
+    slotValid h' x = true := slotValid_keeps s.keeps v
+
+theorem reach_keeps_iff {h h' : Store} (hc : Closed h) (s : Keeps h h') {l x : Nat} (hl : l < h.length) :
     Reach h' l x ↔ Reach h l x := by
   constructor
   · intro hr
@@ -118,26 +145,41 @@ theorem reach_sub_iff {h h' : Store} (hc : Closed h) (s : Sub h h') {l x : Nat} 
     | refl l => exact Reach.refl l
     | step e hm _ ih => exact Reach.step (s.get e) hm (ih (closed_ref hc e hm))
 
-theorem abs_sub {h h' : Store} (hc : Closed h) (s : Sub h h') (n : Nat) {l : Nat} (hl : l < h.length) :
+theorem reach_sub_iff {h h' : Store} (hc : Closed h) (s : Sub h h') {l x : Nat} (hl : l < h.length) :
+    Reach h' l x ↔ Reach h l x := reach_keeps_iff hc s.keeps hl
+
+theorem abs_keeps {h h' : Store} (hc : Closed h) (s : Keeps h h') (n : Nat) {l : Nat} (hl : l < h.length) :
     abs n h' l = abs n h l :=
   abs_congr n l fun _ hx => s.get_lt (reach_lt hc hl hx)
 
-theorem absSlot_sub {h h' : Store} (hc : Closed h) (s : Sub h h') (n : Nat) {x : Slot}
+theorem abs_sub {h h' : Store} (hc : Closed h) (s : Sub h h') (n : Nat) {l : Nat} (hl : l < h.length) :
+    abs n h' l = abs n h l := abs_keeps hc s.keeps n hl
+
+theorem absSlot_keeps {h h' : Store} (hc : Closed h) (s : Keeps h h') (n : Nat) {x : Slot}
     (v : slotValid h x = true) : absSlot (abs n h') x = absSlot (abs n h) x := by
   cases x with
   | val _ => rfl
-  | ref r => exact abs_sub hc s n (by simpa [slotValid] using v)
+  | ref r => exact abs_keeps hc s n (by simpa [slotValid] using v)
+
+theorem absSlot_sub {h h' : Store} (hc : Closed h) (s : Sub h h') (n : Nat) {x : Slot}
+    (v : slotValid h x = true) : absSlot (abs n h') x = absSlot (abs n h) x :=
+  absSlot_keeps hc s.keeps n v
 
 /-! ## immutability -/
 
-theorem IsImm.sub {h h' : Store} (s : Sub h h') {x : Nat} (hi : IsImm h x) : IsImm h' x := by
+theorem IsImm.keeps {h h' : Store} (s : Keeps h h') {x : Nat} (hi : IsImm h x) : IsImm h' x := by
   obtain ⟨o, e, m⟩ := hi
   exact ⟨o, s.get e, m⟩
 
-theorem ImmSlot.sub {h h' : Store} (s : Sub h h') {x : Slot} (hi : ImmSlot h x) : ImmSlot h' x := by
+theorem IsImm.sub {h h' : Store} (s : Sub h h') {x : Nat} (hi : IsImm h x) : IsImm h' x := hi.keeps s.keeps
+
+theorem ImmSlot.keeps {h h' : Store} (s : Keeps h h') {x : Slot} (hi : ImmSlot h x) : ImmSlot h' x := by
   cases x with
   | val _ => trivial
-  | ref r => exact IsImm.sub s hi
+  | ref r => exact IsImm.keeps s hi
+
+theorem ImmSlot.sub {h h' : Store} (s : Sub h h') {x : Slot} (hi : ImmSlot h x) : ImmSlot h' x :=
+  hi.keeps s.keeps
 
 theorem reach_imm {h : Store} (hi : ImmClosed h) {l x : Nat} (hl : IsImm h l) (hr : Reach h l x) :
     IsImm h x := by
@@ -163,30 +205,51 @@ def SlotOK (h : Store) : Treat → Slot → Prop
 def Adequate (tr : Nat → Nat → Treat) (h : Store) : Prop :=
   ∀ (l : Nat) (o : Obj), h[l]? = some o → o.mu = true → ∀ p ∈ o.fields, SlotOK h (tr o.cls p.1) p.2
 
-structure Inv (tr : Nat → Nat → Treat) (h : Store) : Prop where
+/-- The same, for the objects reachable from `l` only. -/
+def AdequateFrom (tr : Nat → Nat → Treat) (h : Store) (l : Nat) : Prop :=
+  ∀ (x : Nat) (o : Obj), Reach h l x → h[x]? = some o → o.mu = true →
+    ∀ p ∈ o.fields, SlotOK h (tr o.cls p.1) p.2
+
+theorem Adequate.from {tr : Nat → Nat → Treat} {h : Store} (a : Adequate tr h) (l : Nat) :
+    AdequateFrom tr h l := fun x o _ e m p hp => a x o e m p hp
+
+/-- Well-formed store: no dangling references, immutable objects are deeply immutable. -/
+structure WF (h : Store) : Prop where
   closed : Closed h
   imm : ImmClosed h
-  adq : Adequate tr h
 
-theorem SlotOK.sub {h h' : Store} (s : Sub h h') {t : Treat} {x : Slot} (ok : SlotOK h t x) :
+theorem SlotOK.keeps {h h' : Store} (s : Keeps h h') {t : Treat} {x : Slot} (ok : SlotOK h t x) :
     SlotOK h' t x := by
   cases t with
   | deep => trivial
-  | keep => exact ImmSlot.sub s ok
+  | keep => exact ImmSlot.keeps s ok
   | missing => exact ok.elim
   | shallow =>
     cases x with
     | val _ => trivial
     | ref r =>
       obtain ⟨o, e, hp⟩ := ok
-      exact ⟨o, s.get e, fun p hm => ImmSlot.sub s (hp p hm)⟩
+      exact ⟨o, s.get e, fun p hm => ImmSlot.keeps s (hp p hm)⟩
 
-/-- Allocating a well-formed object preserves the invariants. -/
-theorem Inv.alloc {tr : Nat → Nat → Treat} {h : Store} (iv : Inv tr h) (o : Obj)
+theorem SlotOK.sub {h h' : Store} (s : Sub h h') {t : Treat} {x : Slot} (ok : SlotOK h t x) :
+    SlotOK h' t x := ok.keeps s.keeps
+
+theorem AdequateFrom.step {tr : Nat → Nat → Treat} {h : Store} {l : Nat} (a : AdequateFrom tr h l)
+    {o : Obj} (e : h[l]? = some o) {f r : Nat} (hm : (f, Slot.ref r) ∈ o.fields) :
+    AdequateFrom tr h r := fun x o' hx => a x o' (Reach.step e hm hx)
+
+theorem AdequateFrom.keeps {tr : Nat → Nat → Treat} {h h' : Store} (hc : Closed h) (s : Keeps h h')
+    {l : Nat} (hl : l < h.length) (a : AdequateFrom tr h l) : AdequateFrom tr h' l := by
+  intro x o hx e m p hp
+  have hx' : Reach h l x := (reach_keeps_iff hc s hl).mp hx
+  have e' : h[x]? = some o := by rw [← s.get_lt (reach_lt hc hl hx')]; exact e
+  exact (a x o hx' e' m p hp).keeps s
+
+/-- Allocating a well-formed object preserves well-formedness. -/
+theorem WF.alloc {h : Store} (wf : WF h) (o : Obj)
     (hv : ∀ p ∈ o.fields, slotValid h p.2 = true)
-    (hi : o.mu = false → ∀ p ∈ o.fields, ImmSlot h p.2)
-    (ha : o.mu = true → ∀ p ∈ o.fields, SlotOK h (tr o.cls p.1) p.2) :
-    Inv tr (h ++ [o]) := by
+    (hi : o.mu = false → ∀ p ∈ o.fields, ImmSlot h p.2) :
+    WF (h ++ [o]) := by
   have s := Sub.alloc h o
   have key : ∀ (l : Nat) (o' : Obj), (h ++ [o])[l]? = some o' → h[l]? = some o' ∨ o' = o := by
     intro l o' e
@@ -201,16 +264,12 @@ theorem Inv.alloc {tr : Nat → Nat → Treat} {h : Store} (iv : Inv tr h) (o : 
   constructor
   · intro l o' e p hm
     rcases key l o' e with e' | rfl
-    · exact slotValid_sub s (iv.closed l o' e' p hm)
+    · exact slotValid_sub s (wf.closed l o' e' p hm)
     · exact slotValid_sub s (hv p hm)
   · intro l o' e m p hm
     rcases key l o' e with e' | rfl
-    · exact ImmSlot.sub s (iv.imm l o' e' m p hm)
+    · exact ImmSlot.sub s (wf.imm l o' e' m p hm)
     · exact ImmSlot.sub s (hi m p hm)
-  · intro l o' e m p hm
-    rcases key l o' e with e' | rfl
-    · exact SlotOK.sub s (iv.adq l o' e' m p hm)
-    · exact SlotOK.sub s (ha m p hm)
 
 /-! ## the copy -/
 
@@ -223,26 +282,38 @@ structure SlotRel (k : Nat) (h h2 : Store) (s s' : Slot) : Prop where
   valid : slotValid h2 s' = true
   absEq : ∀ m, absSlot (abs m h2) s' = absSlot (abs m h) s
   sep : ∀ x, ReachSlot h2 s' x → k ≤ x ∨ IsImm h2 x
+  ord : ∀ x o, ReachSlot h2 s' x → k ≤ x → h2[x]? = some o → o.mu = true →
+    ∀ p ∈ o.fields, ∀ r, p.2 = Slot.ref r → r < x
 
-theorem SlotRel.mono {k : Nat} {h h2 h3 : Store} {s s' : Slot} (hc : Closed h2) (sb : Sub h2 h3)
+theorem SlotRel.mono {k : Nat} {h h2 h3 : Store} {s s' : Slot} (hc : Closed h2) (sb : Keeps h2 h3)
     (r : SlotRel k h h2 s s') : SlotRel k h h3 s s' := by
-  refine ⟨slotValid_sub sb r.valid, fun m => ?_, fun x hx => ?_⟩
-  · rw [absSlot_sub hc sb m r.valid]; exact r.absEq m
+  refine ⟨slotValid_keeps sb r.valid, fun m => ?_, fun x hx => ?_, fun x o hx hk e hm => ?_⟩
+  · rw [absSlot_keeps hc sb m r.valid]; exact r.absEq m
   · cases s' with
     | val _ => exact hx.elim
     | ref q =>
       have hq : q < h2.length := by simpa [slotValid] using r.valid
-      have : Reach h2 q x := (reach_sub_iff hc sb hq).mp hx
+      have : Reach h2 q x := (reach_keeps_iff hc sb hq).mp hx
       rcases r.sep x this with h1 | h1
       · exact Or.inl h1
-      · exact Or.inr (IsImm.sub sb h1)
+      · exact Or.inr (IsImm.keeps sb h1)
+  · cases s' with
+    | val _ => exact hx.elim
+    | ref q =>
+      have hq : q < h2.length := by simpa [slotValid] using r.valid
+      have hx2 : Reach h2 q x := (reach_keeps_iff hc sb hq).mp hx
+      have e2 : h2[x]? = some o := by rw [← sb.get_lt (reach_lt hc hq hx2)]; exact e
+      exact r.ord x o hx2 hk e2 hm
 
 /-- Specification of a copier. -/
 def CopySpec (tr : Nat → Nat → Treat) (cp : Store → Nat → Option (Store × Nat)) : Prop :=
-  ∀ (h : Store) (l : Nat) (h' : Store) (l' : Nat), Inv tr h → cp h l = some (h', l') →
-    Sub h h' ∧ Inv tr h' ∧ l < h.length ∧ l' < h'.length ∧
+  ∀ (h : Store) (l : Nat) (h' : Store) (l' : Nat), WF h → AdequateFrom tr h l →
+    cp h l = some (h', l') →
+    Sub h h' ∧ WF h' ∧ l < h.length ∧ l' < h'.length ∧
     (∀ m, abs m h' l' = abs m h l) ∧
-    (∀ x, Reach h' l' x → h.length ≤ x ∨ IsImm h' x)
+    (∀ x, Reach h' l' x → h.length ≤ x ∨ IsImm h' x) ∧
+    (∀ x o, Reach h' l' x → h.length ≤ x → h'[x]? = some o → o.mu = true →
+      ∀ p ∈ o.fields, ∀ r, p.2 = Slot.ref r → r < x)
 
 theorem abs_dup {h : Store} (hc : Closed h) {r : Nat} {o : Obj} (e : h[r]? = some o) (m : Nat) :
     abs m (h ++ [o]) h.length = abs m h r := by
@@ -259,33 +330,40 @@ theorem abs_dup {h : Store} (hc : Closed h) {r : Nat} {o : Obj} (e : h[r]? = som
 
 theorem copySlot_spec {tr : Nat → Nat → Treat} {cp : Store → Nat → Option (Store × Nat)}
     (hcp : CopySpec tr cp) {h0 h h1 : Store} {t : Treat} {s s' : Slot}
-    (iv0 : Inv tr h0) (iv : Inv tr h) (sb0 : Sub h0 h)
+    (wf0 : WF h0) (wf : WF h) (sb0 : Sub h0 h)
     (hv : slotValid h0 s = true) (ok : SlotOK h0 t s)
+    (hdeep : ∀ r, s = Slot.ref r → AdequateFrom tr h0 r)
     (e : copySlot cp t h s = some (h1, s')) :
-    Sub h h1 ∧ Inv tr h1 ∧ SlotRel h0.length h0 h1 s s' ∧ SlotOK h1 t s' := by
+    Sub h h1 ∧ WF h1 ∧ SlotRel h0.length h0 h1 s s' := by
   -- the slot kept as it is
-  have keepCase : ImmSlot h0 s → Sub h h ∧ Inv tr h ∧ SlotRel h0.length h0 h s s ∧ ImmSlot h s := by
+  have keepCase : ImmSlot h0 s → Sub h h ∧ WF h ∧ SlotRel h0.length h0 h s s := by
     intro him
-    refine ⟨Sub.refl h, iv, ⟨slotValid_sub sb0 hv, fun m => absSlot_sub iv0.closed sb0 m hv, ?_⟩,
-      ImmSlot.sub sb0 him⟩
-    intro x hx
-    cases s with
-    | val _ => exact hx.elim
-    | ref r => exact Or.inr (reach_imm iv.imm (IsImm.sub sb0 him) hx)
+    refine ⟨Sub.refl h, wf, ⟨slotValid_sub sb0 hv, fun m => absSlot_sub wf0.closed sb0 m hv, ?_, ?_⟩⟩
+    · intro x hx
+      cases s with
+      | val _ => exact hx.elim
+      | ref r => exact Or.inr (reach_imm wf.imm (IsImm.sub sb0 him) hx)
+    · intro x o hx hk ex hm
+      cases s with
+      | val _ => exact hx.elim
+      | ref r =>
+        obtain ⟨o', e', m'⟩ := reach_imm wf.imm (IsImm.sub sb0 him) hx
+        rw [ex] at e'
+        cases e'
+        rw [hm] at m'
+        cases m'
   cases t with
   | missing => exact ok.elim
   | keep =>
     simp only [copySlot, Option.some.injEq, Prod.mk.injEq] at e
     obtain ⟨rfl, rfl⟩ := e
-    obtain ⟨a, b, c, d⟩ := keepCase ok
-    exact ⟨a, b, c, d⟩
+    exact keepCase ok
   | deep =>
     cases s with
     | val v =>
       simp only [copySlot, Option.some.injEq, Prod.mk.injEq] at e
       obtain ⟨rfl, rfl⟩ := e
-      obtain ⟨a, b, c, _⟩ := keepCase trivial
-      exact ⟨a, b, c, trivial⟩
+      exact keepCase trivial
     | ref r =>
       simp only [copySlot] at e
       cases ecp : cp h r with
@@ -294,81 +372,101 @@ theorem copySlot_spec {tr : Nat → Nat → Treat} {cp : Store → Nat → Optio
         obtain ⟨h1', r'⟩ := pr
         simp only [ecp, Option.some.injEq, Prod.mk.injEq] at e
         obtain ⟨rfl, rfl⟩ := e
-        obtain ⟨sb, iv1, _, hr', ha, hs⟩ := hcp h r h1' r' iv ecp
         have hr0 : r < h0.length := by simpa [slotValid] using hv
-        refine ⟨sb, iv1, ⟨by simpa [slotValid] using hr', fun m => ?_, fun x hx => ?_⟩, trivial⟩
+        have adq : AdequateFrom tr h r := (hdeep r rfl).keeps wf0.closed sb0.keeps hr0
+        obtain ⟨sb, wf1, _, hr', ha, hs, ho⟩ := hcp h r h1' r' wf adq ecp
+        refine ⟨sb, wf1, ⟨by simpa [slotValid] using hr', fun m => ?_, fun x hx => ?_,
+          fun x o hx hk e hm => ?_⟩⟩
         · simp only [absSlot]
-          rw [ha m, abs_sub iv0.closed sb0 m hr0]
+          rw [ha m, abs_sub wf0.closed sb0 m hr0]
         · rcases hs x hx with h2 | h2
           · exact Or.inl (Nat.le_trans sb0.len h2)
           · exact Or.inr h2
+        · rcases hs x hx with h2 | ⟨o', e', m'⟩
+          · exact ho x o hx h2 e hm
+          · rw [e] at e'
+            cases e'
+            rw [hm] at m'
+            cases m'
   | shallow =>
     cases s with
     | val v =>
       simp only [copySlot, Option.some.injEq, Prod.mk.injEq] at e
       obtain ⟨rfl, rfl⟩ := e
-      obtain ⟨a, b, c, _⟩ := keepCase trivial
-      exact ⟨a, b, c, trivial⟩
+      exact keepCase trivial
     | ref r =>
       obtain ⟨o, eo, himm⟩ := ok
       have eo' : h[r]? = some o := sb0.get eo
       simp only [copySlot, eo'] at e
       have hr0 : r < h0.length := lt_of_get eo
       by_cases hm : o.mu = true
-      · simp only [hm, if_true, Option.some.injEq, Prod.mk.injEq] at e
+      · rw [if_pos hm] at e
+        simp only [Option.some.injEq, Prod.mk.injEq] at e
         obtain ⟨rfl, rfl⟩ := e
         have sb : Sub h (h ++ [o]) := Sub.alloc h o
-        have iv1 : Inv tr (h ++ [o]) :=
-          iv.alloc o (fun p hp => iv.closed r o eo' p hp) (fun hf => by simp [hm] at hf)
-            (fun _ p hp => iv.adq r o eo' hm p hp)
+        have wf1 : WF (h ++ [o]) :=
+          wf.alloc o (fun p hp => wf.closed r o eo' p hp) (fun hf => by rw [hm] at hf; cases hf)
         have eN : (h ++ [o])[h.length]? = some o := by simp
-        refine ⟨sb, iv1, ⟨by simp [slotValid], fun m => ?_, fun x hx => ?_⟩, ?_⟩
+        refine ⟨sb, wf1, ⟨by simp [slotValid], fun m => ?_, fun x hx => ?_, fun x o2 hx hk e2 hm2 => ?_⟩⟩
         · simp only [absSlot]
-          rw [abs_dup iv.closed eo' m, abs_sub iv0.closed sb0 m hr0]
+          rw [abs_dup wf.closed eo' m, abs_sub wf0.closed sb0 m hr0]
         · rcases reach_cases hx with rfl | ⟨o', f, q, e', hq, hr'⟩
           · exact Or.inl sb0.len
           · rw [eN] at e'
             cases e'
             have : IsImm (h ++ [o]) q := IsImm.sub (sb0.trans sb) (himm _ hq)
-            exact Or.inr (reach_imm iv1.imm this hr')
-        · exact ⟨o, eN, fun p hp => ImmSlot.sub (sb0.trans sb) (himm p hp)⟩
+            exact Or.inr (reach_imm wf1.imm this hr')
+        · rcases reach_cases hx with rfl | ⟨o', f, q, e', hq, hr'⟩
+          · rw [eN] at e2
+            cases e2
+            intro p hp r' hr2
+            have := wf.closed r o eo' p hp
+            rw [hr2] at this
+            simpa [slotValid] using this
+          · rw [eN] at e'
+            cases e'
+            have : IsImm (h ++ [o]) q := IsImm.sub (sb0.trans sb) (himm _ hq)
+            obtain ⟨o3, e3, m3⟩ := reach_imm wf1.imm this hr'
+            rw [e2] at e3
+            cases e3
+            rw [hm2] at m3
+            cases m3
       · have hm' : o.mu = false := by simpa using hm
-        simp only [hm', Bool.false_eq_true, if_false, Option.some.injEq, Prod.mk.injEq] at e
+        rw [if_neg hm] at e
+        simp only [Option.some.injEq, Prod.mk.injEq] at e
         obtain ⟨rfl, rfl⟩ := e
-        have him : ImmSlot h0 (Slot.ref r) := ⟨o, eo, hm'⟩
-        obtain ⟨a, b, c, _⟩ := keepCase him
-        exact ⟨a, b, c, ⟨o, eo', fun p hp => ImmSlot.sub sb0 (himm p hp)⟩⟩
+        exact keepCase ⟨o, eo, hm'⟩
 
 /-- The fields of the copy, pairwise related to the fields of the source. -/
-def FieldsRel (tr : Nat → Treat) (k : Nat) (h h2 : Store) : List (Nat × Slot) → List (Nat × Slot) → Prop
+def FieldsRel (k : Nat) (h h2 : Store) : List (Nat × Slot) → List (Nat × Slot) → Prop
   | [], [] => True
-  | p :: ps, p' :: ps' =>
-    (p'.1 = p.1 ∧ SlotRel k h h2 p.2 p'.2 ∧ SlotOK h2 (tr p.1) p'.2) ∧ FieldsRel tr k h h2 ps ps'
+  | p :: ps, p' :: ps' => (p'.1 = p.1 ∧ SlotRel k h h2 p.2 p'.2) ∧ FieldsRel k h h2 ps ps'
   | _, _ => False
 
-theorem FieldsRel.mono {tr : Nat → Treat} {k : Nat} {h h2 h3 : Store} (hc : Closed h2) (sb : Sub h2 h3) :
-    ∀ {fs fs' : List (Nat × Slot)}, FieldsRel tr k h h2 fs fs' → FieldsRel tr k h h3 fs fs'
+theorem FieldsRel.mono {k : Nat} {h h2 h3 : Store} (hc : Closed h2) (sb : Keeps h2 h3) :
+    ∀ {fs fs' : List (Nat × Slot)}, FieldsRel k h h2 fs fs' → FieldsRel k h h3 fs fs'
   | [], [], _ => trivial
-  | _ :: _, _ :: _, ⟨⟨a, b, c⟩, d⟩ => ⟨⟨a, b.mono hc sb, c.sub sb⟩, FieldsRel.mono hc sb d⟩
+  | _ :: _, _ :: _, ⟨⟨a, b⟩, d⟩ => ⟨⟨a, b.mono hc sb⟩, FieldsRel.mono hc sb d⟩
   | [], _ :: _, hf => hf.elim
   | _ :: _, [], hf => hf.elim
 
 theorem copyFields_spec {tr : Nat → Nat → Treat} {cp : Store → Nat → Option (Store × Nat)}
-    (hcp : CopySpec tr cp) (trc : Nat → Treat) {h0 : Store} (iv0 : Inv tr h0) :
+    (hcp : CopySpec tr cp) (trc : Nat → Treat) {h0 : Store} (wf0 : WF h0) :
     ∀ (fs : List (Nat × Slot)) (h h2 : Store) (fs' : List (Nat × Slot)),
-      Inv tr h → Sub h0 h →
-      (∀ p ∈ fs, slotValid h0 p.2 = true ∧ SlotOK h0 (trc p.1) p.2) →
+      WF h → Sub h0 h →
+      (∀ p ∈ fs, slotValid h0 p.2 = true ∧ SlotOK h0 (trc p.1) p.2 ∧
+        ∀ r, p.2 = Slot.ref r → AdequateFrom tr h0 r) →
       copyFields cp trc h fs = some (h2, fs') →
-      Sub h h2 ∧ Inv tr h2 ∧ FieldsRel trc h0.length h0 h2 fs fs' := by
+      Sub h h2 ∧ WF h2 ∧ FieldsRel h0.length h0 h2 fs fs' := by
   intro fs
   induction fs with
   | nil =>
-    intro h h2 fs' iv _ _ e
+    intro h h2 fs' wf _ _ e
     simp only [copyFields, Option.some.injEq, Prod.mk.injEq] at e
     obtain ⟨rfl, rfl⟩ := e
-    exact ⟨Sub.refl h, iv, trivial⟩
+    exact ⟨Sub.refl h, wf, trivial⟩
   | cons p rest ih =>
-    intro h h2 fs' iv sb0 hall e
+    intro h h2 fs' wf sb0 hall e
     obtain ⟨f, s⟩ := p
     simp only [copyFields] at e
     cases e1 : copySlot cp (trc f) h s with
@@ -383,23 +481,23 @@ theorem copyFields_spec {tr : Nat → Nat → Treat} {cp : Store → Nat → Opt
         simp only [e2, Option.some.injEq, Prod.mk.injEq] at e
         obtain ⟨rfl, rfl⟩ := e
         have hp := hall (f, s) (List.mem_cons_self)
-        obtain ⟨sb1, iv1, rel1, ok1⟩ := copySlot_spec hcp iv0 iv sb0 hp.1 hp.2 e1
-        obtain ⟨sb2, iv2, rel2⟩ := ih h1 h2' rest' iv1 (sb0.trans sb1)
+        obtain ⟨sb1, wf1, rel1⟩ := copySlot_spec hcp wf0 wf sb0 hp.1 hp.2.1 hp.2.2 e1
+        obtain ⟨sb2, wf2, rel2⟩ := ih h1 h2' rest' wf1 (sb0.trans sb1)
           (fun q hq => hall q (List.mem_cons_of_mem _ hq)) e2
-        exact ⟨sb1.trans sb2, iv2, ⟨rfl, rel1.mono iv1.closed sb2, ok1.sub sb2⟩, rel2⟩
+        exact ⟨sb1.trans sb2, wf2, ⟨rfl, rel1.mono wf1.closed sb2.keeps⟩, rel2⟩
 
-theorem FieldsRel.absMap {tr : Nat → Treat} {k : Nat} {h h2 : Store} (m : Nat) :
-    ∀ {fs fs' : List (Nat × Slot)}, FieldsRel tr k h h2 fs fs' →
+theorem FieldsRel.absMap {k : Nat} {h h2 : Store} (m : Nat) :
+    ∀ {fs fs' : List (Nat × Slot)}, FieldsRel k h h2 fs fs' →
       fs'.map (fun p => (p.1, absSlot (abs m h2) p.2)) = fs.map (fun p => (p.1, absSlot (abs m h) p.2))
   | [], [], _ => rfl
-  | p :: ps, p' :: ps', ⟨⟨a, b, _⟩, d⟩ => by
+  | p :: ps, p' :: ps', ⟨⟨a, b⟩, d⟩ => by
     simp only [List.map_cons, a, b.absEq m, FieldsRel.absMap m d]
   | [], _ :: _, hf => hf.elim
   | _ :: _, [], hf => hf.elim
 
-theorem FieldsRel.mem {tr : Nat → Treat} {k : Nat} {h h2 : Store} :
-    ∀ {fs fs' : List (Nat × Slot)}, FieldsRel tr k h h2 fs fs' → ∀ p' ∈ fs',
-      ∃ p ∈ fs, p'.1 = p.1 ∧ SlotRel k h h2 p.2 p'.2 ∧ SlotOK h2 (tr p.1) p'.2
+theorem FieldsRel.mem {k : Nat} {h h2 : Store} :
+    ∀ {fs fs' : List (Nat × Slot)}, FieldsRel k h h2 fs fs' → ∀ p' ∈ fs',
+      ∃ p ∈ fs, p'.1 = p.1 ∧ SlotRel k h h2 p.2 p'.2
   | [], [], _, _, hm => by cases hm
   | p :: ps, q :: ps', ⟨hd, tl⟩, p', hm => by
     rcases List.mem_cons.mp hm with rfl | hm'
@@ -409,73 +507,103 @@ theorem FieldsRel.mem {tr : Nat → Treat} {k : Nat} {h h2 : Store} :
   | [], _ :: _, hf, _, _ => hf.elim
   | _ :: _, [], hf, _, _ => hf.elim
 
-/-- **The copy theorem.** Under the invariants (closed store, deep immutability, adequate
-treatments) `copyWith` extends the store, keeps the invariants, returns an object with the same
-abstraction, and everything reachable from it is freshly allocated or immutable. -/
+theorem FieldsRel.length {k : Nat} {h h2 : Store} :
+    ∀ {fs fs' : List (Nat × Slot)}, FieldsRel k h h2 fs fs' → fs'.length = fs.length
+  | [], [], _ => rfl
+  | _ :: _, _ :: _, ⟨_, tl⟩ => by simp [FieldsRel.length tl]
+  | [], _ :: _, hf => hf.elim
+  | _ :: _, [], hf => hf.elim
+
+/-- The copy of a mutable object is a new object with the same class whose fields are related,
+one by one, to the fields of the source. -/
+theorem copyWith_shape {tr : Nat → Nat → Treat} {n : Nat} (ih : CopySpec tr (copyWith tr n))
+    {h h' : Store} {l l' : Nat} {o : Obj} (wf : WF h) (adq : AdequateFrom tr h l)
+    (eo : h[l]? = some o) (hm : o.mu = true)
+    (e : copyWith tr (n + 1) h l = some (h', l')) :
+    ∃ (h1 : Store) (o' : Obj), h' = h1 ++ [o'] ∧ l' = h1.length ∧ Sub h h1 ∧ WF h1 ∧
+      o'.cls = o.cls ∧ o'.mu = true ∧ FieldsRel h.length h h1 o.fields o'.fields := by
+  simp only [copyWith, eo] at e
+  rw [if_pos hm] at e
+  cases ef : copyFields (copyWith tr n) (tr o.cls) h o.fields with
+  | none => simp [ef] at e
+  | some pr =>
+    obtain ⟨h1, fs'⟩ := pr
+    simp only [ef, Option.some.injEq, Prod.mk.injEq] at e
+    obtain ⟨rfl, rfl⟩ := e
+    obtain ⟨sb1, wf1, rel⟩ := copyFields_spec ih (tr o.cls) wf o.fields h h1 fs' wf (Sub.refl h)
+      (fun p hp => ⟨wf.closed l o eo p hp, adq l o (Reach.refl l) eo hm p hp,
+        fun r hr => by
+          obtain ⟨f, s⟩ := p
+          subst hr
+          exact adq.step eo hp⟩) ef
+    exact ⟨h1, _, rfl, rfl, sb1, wf1, rfl, hm, rel⟩
+
+/-- **The copy theorem.** On a well-formed store, if the treatments are adequate for everything
+reachable from `l`, `copyWith` extends the store, keeps it well formed, returns an object with
+the same abstraction, and everything reachable from it is freshly allocated or immutable. -/
 theorem copyWith_spec (tr : Nat → Nat → Treat) : ∀ n, CopySpec tr (copyWith tr n) := by
   intro n
   induction n with
   | zero =>
-    intro h l h' l' _ e
+    intro h l h' l' _ _ e
     simp [copyWith] at e
   | succ n ih =>
-    intro h l h' l' iv e
-    simp only [copyWith] at e
+    intro h l h' l' wf adq e
     cases eo : h[l]? with
-    | none => simp [eo] at e
+    | none => simp [copyWith, eo] at e
     | some o =>
-      simp only [eo] at e
       have hl : l < h.length := lt_of_get eo
       by_cases hm : o.mu = true
-      · simp only [hm, if_true] at e
-        cases ef : copyFields (copyWith tr n) (tr o.cls) h o.fields with
-        | none => simp [ef] at e
-        | some pr =>
-          obtain ⟨h1, fs'⟩ := pr
-          simp only [ef, Option.some.injEq, Prod.mk.injEq] at e
-          obtain ⟨rfl, rfl⟩ := e
-          obtain ⟨sb1, iv1, rel⟩ := copyFields_spec ih (tr o.cls) iv o.fields h h1 fs' iv (Sub.refl h)
-            (fun p hp => ⟨iv.closed l o eo p hp, iv.adq l o eo hm p hp⟩) ef
-          generalize ho' : ({ cls := o.cls, mu := true, fields := fs' } : Obj) = o'
-          have hcls : o'.cls = o.cls := by rw [← ho']
-          have hmu : o'.mu = true := by rw [← ho']
-          have hfs : o'.fields = fs' := by rw [← ho']
-          have sb2 : Sub h1 (h1 ++ [o']) := Sub.alloc h1 o'
-          have iv2 : Inv tr (h1 ++ [o']) := by
-            apply iv1.alloc o'
-            · intro p' hp'
-              rw [hfs] at hp'
-              obtain ⟨p, _, _, r, _⟩ := rel.mem p' hp'
-              exact r.valid
-            · intro hf
-              rw [hmu] at hf
-              cases hf
-            · intro _ p' hp'
-              rw [hfs] at hp'
-              obtain ⟨p, _, e1, _, ok⟩ := rel.mem p' hp'
-              rw [hcls, e1]; exact ok
-          have rel2 := rel.mono iv1.closed sb2
-          have eN : (h1 ++ [o'])[h1.length]? = some o' := by simp
-          refine ⟨sb1.trans sb2, iv2, hl, by simp, fun m => ?_, fun x hx => ?_⟩
-          · cases m with
-            | zero => rfl
-            | succ m =>
-              simp only [abs, eN, eo]
-              rw [hcls, hmu, hfs, hm]
-              congr 1
-              exact rel2.absMap m
-          · rcases reach_cases hx with rfl | ⟨o2, f, q, e2, hq, hr⟩
-            · exact Or.inl sb1.len
-            · rw [eN] at e2
-              cases e2
-              rw [hfs] at hq
-              obtain ⟨p, _, _, r, _⟩ := rel2.mem (f, Slot.ref q) hq
-              exact r.sep x hr
+      · obtain ⟨h1, o', rfl, rfl, sb1, wf1, hcls, hmu, rel⟩ := copyWith_shape ih wf adq eo hm e
+        have sb2 : Sub h1 (h1 ++ [o']) := Sub.alloc h1 o'
+        have wf2 : WF (h1 ++ [o']) := by
+          apply wf1.alloc o'
+          · intro p' hp'
+            obtain ⟨p, _, _, r⟩ := rel.mem p' hp'
+            exact r.valid
+          · intro hf
+            rw [hmu] at hf
+            cases hf
+        have rel2 := rel.mono wf1.closed sb2.keeps
+        have eN : (h1 ++ [o'])[h1.length]? = some o' := by simp
+        refine ⟨sb1.trans sb2, wf2, hl, by simp, fun m => ?_, fun x hx => ?_, fun x o3 hx hk e3 hm3 => ?_⟩
+        · cases m with
+          | zero => rfl
+          | succ m =>
+            simp only [abs, eN, eo]
+            rw [hcls, hmu, hm]
+            congr 1
+            exact rel2.absMap m
+        · rcases reach_cases hx with rfl | ⟨o2, f, q, e2, hq, hr⟩
+          · exact Or.inl sb1.len
+          · rw [eN] at e2
+            cases e2
+            obtain ⟨p, _, _, r⟩ := rel2.mem (f, Slot.ref q) hq
+            exact r.sep x hr
+        · rcases reach_cases hx with rfl | ⟨o2, f, q, e2, hq, hr⟩
+          · rw [eN] at e3
+            cases e3
+            intro p hp r' hr2
+            obtain ⟨p0, _, _, rr⟩ := rel.mem p hp
+            have := rr.valid
+            rw [hr2] at this
+            simpa [slotValid] using this
+          · rw [eN] at e2
+            cases e2
+            obtain ⟨p, _, _, r⟩ := rel2.mem (f, Slot.ref q) hq
+            exact r.ord x o3 hr hk e3 hm3
       · have hm' : o.mu = false := by simpa using hm
-        simp only [hm', Bool.false_eq_true, if_false, Option.some.injEq, Prod.mk.injEq] at e
+        simp only [copyWith, eo] at e
+        rw [if_neg hm] at e
+        simp only [Option.some.injEq, Prod.mk.injEq] at e
         obtain ⟨rfl, rfl⟩ := e
-        exact ⟨Sub.refl h, iv, hl, hl, fun _ => rfl,
-          fun x hx => Or.inr (reach_imm iv.imm ⟨o, eo, hm'⟩ hx)⟩
+        refine ⟨Sub.refl h, wf, hl, hl, fun _ => rfl,
+          fun x hx => Or.inr (reach_imm wf.imm ⟨o, eo, hm'⟩ hx), fun x o3 hx _ e3 hm3 => ?_⟩
+        obtain ⟨o4, e4, m4⟩ := reach_imm wf.imm ⟨o, eo, hm'⟩ hx
+        rw [e3] at e4
+        cases e4
+        rw [hm3] at m4
+        cases m4
 
 /-- `deepCopy` is adequate on every store. -/
 theorem adequate_deep (h : Store) : Adequate (fun _ _ => Treat.deep) h :=
@@ -663,7 +791,7 @@ sides; any sequence of mutations of fresh objects (the copy's side, and anything
 later) is invisible from the source; any sequence of mutations that avoids the copy's fresh
 objects is invisible from the copy. -/
 theorem copy_indep {tr : Nat → Nat → Treat} {n : Nat} {h h1 : Store} {l l' : Nat}
-    (iv : Inv tr h) (e : copyWith tr n h l = some (h1, l')) :
+    (iv : WF h) (adq : AdequateFrom tr h l) (e : copyWith tr n h l = some (h1, l')) :
     (∀ m, abs m h1 l' = abs m h l) ∧
     (∀ m, abs m h1 l = abs m h l) ∧
     (∀ x, Reach h1 l' x → Reach h1 l x → IsImm h1 x) ∧
@@ -671,7 +799,7 @@ theorem copy_indep {tr : Nat → Nat → Treat} {n : Nat} {h h1 : Store} {l l' :
         ∀ m, abs m (run ops h1) l = abs m h l) ∧
     (∀ ops : List Op, (∀ op ∈ ops, ∀ t, op.target = some t → t < h.length ∨ h1.length ≤ t) →
         ∀ m, abs m (run ops h1) l' = abs m h l) := by
-  obtain ⟨sb, iv1, hl, hl', ha, hs⟩ := copyWith_spec tr n h l h1 l' iv e
+  obtain ⟨sb, iv1, hl, hl', ha, hs, _⟩ := copyWith_spec tr n h l h1 l' iv adq e
   have old : ∀ x, Reach h1 l x → x < h.length := fun x hx =>
     reach_lt iv.closed hl ((reach_sub_iff iv.closed sb hl).mp hx)
   refine ⟨ha, fun m => abs_sub iv.closed sb m hl, ?_, ?_, ?_⟩
@@ -691,5 +819,126 @@ theorem copy_indep {tr : Nat → Nat → Treat} {n : Nat} {h h1 : Store} {l l' :
       · have := reach_lt iv1.closed hl' hx
         omega
       · exact h2
+
+/-! ## replacing the fields of one mutable object keeps the store well formed -/
+
+theorem set_immClosed {h : Store} (hi : ImmClosed h) {l : Nat} {o : Obj} (e : h[l]? = some o)
+    (hm : o.mu = true) (fs : List (Nat × Slot)) :
+    ImmClosed (h.set l { o with fields := fs }) := by
+  have hl := lt_of_get e
+  have keepImm : ∀ r, IsImm h r → IsImm (h.set l { o with fields := fs }) r := by
+    intro r ⟨o', e', m'⟩
+    have : l ≠ r := by
+      intro hlr
+      subst hlr
+      rw [e] at e'
+      cases e'
+      rw [hm] at m'
+      cases m'
+    exact ⟨o', by rw [List.getElem?_set_ne this]; exact e', m'⟩
+  intro x o' e' m' p hp
+  by_cases hx : l = x
+  · subst hx
+    rw [List.getElem?_set_self hl] at e'
+    cases e'
+    rw [hm] at m'
+    cases m'
+  · rw [List.getElem?_set_ne hx] at e'
+    have := hi x o' e' m' p hp
+    cases hs : p.2 with
+    | val _ => trivial
+    | ref r =>
+      rw [hs] at this
+      exact keepImm r this
+
+theorem WF.set {h : Store} (wf : WF h) {l : Nat} {o : Obj} (e : h[l]? = some o) (hm : o.mu = true)
+    (fs : List (Nat × Slot)) (hv : ∀ p ∈ fs, slotValid h p.2 = true) :
+    WF (h.set l { o with fields := fs }) :=
+  ⟨(confined_set (W := fun _ => True) e trivial hm fs hv).closed wf.closed, set_immClosed wf.imm e hm fs⟩
+
+/-! ## ordered fresh objects: nothing above an object is reachable from it -/
+
+theorem reach_old {h : Store} {k : Nat}
+    (hold : ∀ x o, x < k → h[x]? = some o → ∀ p ∈ o.fields, ∀ r, p.2 = Slot.ref r → r < k)
+    {l z : Nat} (hl : l < k) (hz : Reach h l z) : z < k := by
+  induction hz with
+  | refl _ => exact hl
+  | @step l2 o2 f2 r2 x2 e2 hm2 _ ih2 => exact ih2 (hold l2 o2 hl e2 _ hm2 r2 rfl)
+
+/-- If every object reachable from `e` is old (`< k`), immutable, or a mutable object whose
+references all point to smaller locations, then everything reachable from `e` is `≤ e`, old or
+immutable. `hold`: old objects only reference old objects. -/
+theorem reach_le_of_ordered {h : Store} {k : Nat} (hi : ImmClosed h)
+    (hold : ∀ x o, x < k → h[x]? = some o → ∀ p ∈ o.fields, ∀ r, p.2 = Slot.ref r → r < k)
+    {e y : Nat} (hr : Reach h e y)
+    (hord : ∀ x o, Reach h e x → k ≤ x → h[x]? = some o → o.mu = true →
+      ∀ p ∈ o.fields, ∀ r, p.2 = Slot.ref r → r < x) :
+    y ≤ e ∨ y < k ∨ IsImm h y := by
+  induction hr with
+  | refl l => exact Or.inl (Nat.le_refl _)
+  | @step l o f r x eo hm hr' ih =>
+    have ih' := ih (fun x' o' hx' => hord x' o' (Reach.step eo hm hx'))
+    by_cases hk : l < k
+    · -- an old object: everything below it is old
+      have hr_old : r < k := hold l o hk eo _ hm r rfl
+      exact Or.inr (Or.inl (reach_old hold hr_old hr'))
+    · by_cases hmu : o.mu = true
+      · have hlt : r < l := hord l o (Reach.refl l) (by omega) eo hmu _ hm r rfl
+        rcases ih' with h1 | h1 | h1
+        · exact Or.inl (by omega)
+        · exact Or.inr (Or.inl h1)
+        · exact Or.inr (Or.inr h1)
+      · have hmu' : o.mu = false := by simpa using hmu
+        exact Or.inr (Or.inr (reach_imm hi ⟨o, eo, hmu'⟩ (Reach.step eo hm hr')))
+
+/-! ## reflection of the executable checks -/
+
+theorem closed_of_closedB {h : Store} (e : closedB h = true) : Closed h := by
+  intro l o eo p hp
+  have h1 := List.all_eq_true.mp e o (List.mem_of_getElem? eo)
+  exact List.all_eq_true.mp h1 p hp
+
+theorem immSlot_of_immSlotB {h : Store} {s : Slot} (e : immSlotB h s = true) : ImmSlot h s := by
+  cases s with
+  | val _ => trivial
+  | ref r =>
+    simp only [immSlotB] at e
+    cases eo : h[r]? with
+    | none => simp [eo] at e
+    | some o =>
+      simp only [eo] at e
+      exact ⟨o, eo, by simpa using e⟩
+
+theorem immClosed_of_immClosedB {h : Store} (e : immClosedB h = true) : ImmClosed h := by
+  intro l o eo m p hp
+  have h1 := List.all_eq_true.mp e o (List.mem_of_getElem? eo)
+  simp only [m, Bool.false_or] at h1
+  exact immSlot_of_immSlotB (List.all_eq_true.mp h1 p hp)
+
+theorem slotOK_of_slotOKB {h : Store} {t : Treat} {s : Slot} (e : slotOKB h t s = true) : SlotOK h t s := by
+  cases t with
+  | deep => trivial
+  | keep => exact immSlot_of_immSlotB (by simpa [slotOKB] using e)
+  | missing => simp [slotOKB] at e
+  | shallow =>
+    cases s with
+    | val _ => trivial
+    | ref r =>
+      simp only [slotOKB] at e
+      cases eo : h[r]? with
+      | none => simp [eo] at e
+      | some o =>
+        simp only [eo] at e
+        exact ⟨o, eo, fun p hp => immSlot_of_immSlotB (List.all_eq_true.mp e p hp)⟩
+
+theorem adequate_of_adequateB {tr : Nat → Nat → Treat} {h : Store} (e : adequateB tr h = true) :
+    Adequate tr h := by
+  intro l o eo m p hp
+  have h1 := List.all_eq_true.mp e o (List.mem_of_getElem? eo)
+  simp only [m, Bool.not_true, Bool.false_or] at h1
+  exact slotOK_of_slotOKB (List.all_eq_true.mp h1 p hp)
+
+theorem wf_of_B {h : Store} (e1 : closedB h = true) (e2 : immClosedB h = true) : WF h :=
+  ⟨closed_of_closedB e1, immClosed_of_immClosedB e2⟩
 
 end Heap
